@@ -476,6 +476,14 @@ def native_blocking(shape, maxdim, merge, ignored=None):
     g = D.merge_and_block_gradients()
     if len(g) != len(blocks) or any(not torch.equal(gb, pb.detach() * 10) for gb, pb in zip(g, blocks)):
         return "gradient blocks do not cover the same index sets as the parameter blocks"
+    # the gradient blocks are those of the CURRENT gradient memory: the same grad tensor object re-pointed at new memory (`.data = `, `set_`), or
+    # overwritten in place, must be re-read (blocking is a function of the tensors' current contents, nothing is remembered between steps)
+    for k_, install in enumerate((lambda t: setattr(p.grad, "data", t), lambda t: p.grad.set_(t), lambda t: p.grad.copy_(t))):
+        new_g = torch.arange(n, dtype=torch.float64).reshape(shape) * (3.0 + k_)
+        install(new_g)
+        g = D.merge_and_block_gradients()
+        if len(g) != len(blocks) or any(not torch.equal(gb, pb.detach() * (3.0 + k_)) for gb, pb in zip(g, blocks)):
+            return "gradient blocks are stale after the gradient tensor was re-pointed / overwritten (" + ("grad.data = t", "grad.set_(t)", "grad.copy_(t)")[k_] + ")"
     before = p.detach().clone()
     D.update_params(tuple(torch.ones_like(b) for b in blocks))
     if not torch.equal(p.detach(), before + 1):
